@@ -29,7 +29,7 @@ RULE += " Depth limit: the 1023-deep chain is also taken through to_boc/one_from
 ASSUMPTIONS = ['SHA-256 from hashlib is trusted', 'long bit-string contents by representatives (all lengths complete)']
 NOT_ASSERTED = []
 
-ROUTES = ['builder', 'ctor_tvm', 'ctor_plain', 'ctor_plain_le', 'boc_bytes', 'boc_hex', 'boc_b64', 'copy', 'parse_to_cell', 'slice_from_cell',
+ROUTES = ['builder', 'ctor_tvm', 'ctor_plain', 'ctor_plain_le', 'ctor_tvm_le', 'boc_bytes', 'boc_hex', 'boc_b64', 'copy', 'parse_to_cell', 'slice_from_cell',
           'to_builder', 'builder_to_slice', 'builder_from_boc', 'slice_from_boc', 'boc_options', 'builder_reused', 'slice_reused', 'derived_mutated',
           'subclass_boc', 'subclass_ctor', 'subclass_copy', 'slice_consumed', 'rehashed']
 
@@ -127,6 +127,11 @@ def _routes(rc, refs_lib):
     yield 'ctor_tvm', tvm
     yield 'ctor_plain', lambda: Cell(bitarray(rc.bits), list(refs_lib), -1)
     yield 'ctor_plain_le', lambda: Cell(bitarray(rc.bits, endian='little'), list(refs_lib), -1)      # the same bits in a little-endian bit array
+    def tvm_le():
+        from pytoniq_core.boc.tvm_bitarray import TvmBitarray
+        return Cell(TvmBitarray(1023, rc.bits, endian='little'), list(refs_lib), -1)      # ... and in a little-endian TvmBitarray
+
+    yield 'ctor_tvm_le', tvm_le
     yield 'boc_bytes', lambda: Cell.one_from_boc(base().end_cell().to_boc())
     yield 'boc_hex', lambda: Cell.one_from_boc(base().end_cell().to_boc().hex())
     yield 'boc_b64', lambda: Cell.one_from_boc(base64.b64encode(base().end_cell().to_boc()).decode())
